@@ -344,7 +344,48 @@ func judgeRoundtrip(rec *ev.Rec, seed, msg []byte, v ref.Variant, n, pos int, ek
 					keys[i], msgs[i], sigs[i] = b.Pub, b.Msg, b.Sig
 				}
 			}
-			ok, valid, err := ed25519.VerifyBatch(entropy(ekind, eseed), keys, msgs, sigs, libOpts(v, zip))
+			// every third case: another member of the same 64-entry chunk is
+			// invalid, so the chunk is decided by the fallback; the library's
+			// own signature must still be reported valid (uniform entropy
+			// only: an invalid member is present)
+			badNeighbour := n >= 2 && (eseed+int64(n))%3 == 0
+			ek := ekind
+			bpos := -1
+			if badNeighbour {
+				lo := (pos / 64) * 64
+				hi := lo + 64
+				if hi > n {
+					hi = n
+				}
+				bpos = lo + int((eseed>>8)%int64(hi-lo))
+				if bpos == pos {
+					bpos = lo + (pos-lo+1)%(hi-lo)
+				}
+				if bpos == pos {
+					badNeighbour = false
+				} else {
+					sigs[bpos] = append([]byte(nil), sigs[bpos]...)
+					sigs[bpos][33] ^= 0x10
+					if ek != "chunk1" && ek != "chunk32" {
+						ek = "uniform"
+					}
+				}
+			}
+			ok, valid, err := ed25519.VerifyBatch(entropy(ek, eseed), keys, msgs, sigs, libOpts(v, zip))
+			if badNeighbour {
+				switch {
+				case err != nil || len(valid) != n:
+					bad = fmt.Sprintf("VerifyBatch(n=%d) err=%v", n, err)
+				case !valid[pos]:
+					bad = fmt.Sprintf("VerifyBatch(n=%d,pos=%d,zip215=%v): the library's own signature reported invalid when member %d of the same chunk is invalid", n, pos, zip, bpos)
+				case valid[bpos] || ok:
+					bad = "damaged member accepted"
+				}
+				if bad != "" {
+					return
+				}
+				continue
+			}
 			if err != nil || !ok || len(valid) != n {
 				bad = fmt.Sprintf("VerifyBatch(n=%d,pos=%d,zip215=%v,entropy=%s) ok=%v err=%v", n, pos, zip, ekind, ok, err)
 				if len(valid) == n && !valid[pos] {
